@@ -81,14 +81,18 @@ def check_adjust(n: int, mw: int, depth: int, env_ok: bool, ctor_depth: int) -> 
     return True
 
 
-def check_ensure_running(n: int, mw: int, started: bool) -> bool:
+def check_ensure_running(n: int, mw: int, started: bool, timeout_kind: int = 1) -> bool:
     """
-    pre: 0 <= n <= 4 and 1 <= mw <= 4
+    pre: 0 <= n <= 4 and 1 <= mw <= 4 and 0 <= timeout_kind <= 2
     post: _
     """
     n, mw = _conc(n, 4), _conc(mw, 4)
     log = Log()
     ex, ctx, lock = _mk_executor(log, n, mw)
+    # workers also leave on their own without an idle time-out (memory-leak protection), so the top-up must not
+    # depend on the configuration: manager thread already started or not, timeout None / positive / zero
+    ex._timeout = [None, 3.5, 0][_conc(timeout_kind, 2)]
+    ex._executor_manager_thread = object() if started else None
     ex._adjust_process_count = lambda: (log.add("adjust", lock.held), ProcessPoolExecutor._adjust_process_count(ex))[0]
     ex._start_executor_manager_thread = lambda: log.add("start-manager", lock.held, len(ex._processes))
     ProcessPoolExecutor._ensure_executor_running(ex)
@@ -96,8 +100,11 @@ def check_ensure_running(n: int, mw: int, started: bool) -> bool:
         return False
     if log.count("adjust", True) != (1 if n != mw else 0) or log.count("adjust", False):
         return False
+    if len(ex._processes) != max(n, mw):
+        return False
     # every submit tops the pool back up to full size before the manager is (re)started
-    return log.count("start-manager", True, max(n, mw)) == 1
+    k = log.count("start-manager", True, max(n, mw))
+    return k == 1 or (started and k == 0 and log.count("start-manager") == 0)
 
 
 def check_pid_message(n: int, mw: int, victim: int, n_pending: int, n_running: int, exec_alive: bool, slow: bool = False) -> bool:
